@@ -66,6 +66,8 @@ class Run:
         self.idents = {}
         self.steps = 0
         self.max_steps = 5000
+        self.fair_limit = 300
+        self.streak = 0
         self.abort = False
 
     # -- called from body threads ------------------------------------------------
@@ -161,8 +163,14 @@ class Run:
                     chosen = self.prefix[pos]
                 elif self.current in enabled:
                     chosen = self.current
+                    # fairness beyond the prescribed prefix: a thread that spins (a retry loop that only another
+                    # thread can end) is not allowed to starve the others for ever
+                    if self.streak > self.fair_limit and len(enabled) > 1:
+                        others = [i for i in enabled if i != self.current]
+                        chosen = others[0]
                 else:
                     chosen = enabled[0]
+                self.streak = self.streak + 1 if chosen == self.current else 0
                 self.decisions.append((tuple(enabled), chosen, self.current))
                 pos += 1
                 self.steps += 1
@@ -204,7 +212,8 @@ def explore(make_bodies, traced_files, bound, on_run, max_runs=200000):
         except Deadlock as exc:
             run.deadlock_error = exc
         runs += 1
-        on_run(run, ctx)
+        if on_run(run, ctx) == "stop":
+            break
         chosen = [d[1] for d in run.decisions]
         key = tuple(chosen)
         if key in seen:
